@@ -51,7 +51,8 @@ def split_matrix_svd(A, q0, q1, tol):
         if A.shape[0] > 0:
             u[0, 0] = 1
         # ensure non-zero entry in 'u' formally matches quantum numbers
-        q = q0[:1]
+        # (any label is consistent in case 'A' has no rows, since 'u' is empty then)
+        q = q0[:1] if A.shape[0] > 0 else np.zeros(1, dtype=int)
         # 'v' must remain zero matrix to satisfy quantum number constraints
         return (u, s, v, q)
 
@@ -155,9 +156,11 @@ def qr(A, q0, q1):
         Q = np.zeros((A.shape[0], 1), dtype=A.dtype)
         R = np.zeros((1, A.shape[1]), dtype=A.dtype)
         # single column of 'Q' should have norm 1
-        Q[0, 0] = 1
+        if A.shape[0] > 0:
+            Q[0, 0] = 1
         # ensure non-zero entry in 'Q' formally matches quantum numbers
-        qinterm = q0[:1]
+        # (any label is consistent in case 'A' has no rows, since 'Q' is empty then)
+        qinterm = q0[:1] if A.shape[0] > 0 else np.zeros(1, dtype=int)
         return (Q, R, qinterm)
 
     # require NumPy arrays for indexing
